@@ -1139,9 +1139,14 @@ fn run_project(cx: &mut Ctx, rng: &mut Rng) {
         0 => run_project_spec(cx, &p, "project-fault", None, rng),
         1 => {
             // duplicate entry names (seeded change C18-m9): the module stream comes first in 2 cases out of 3
+            // kind 0 (a STORAGE of the same name) is no longer a finding: Cfb::get_stream looks at stream entries only
+            // (/repo d258a89), so both orders must read the module; kind 1 (another STREAM of the same name) keeps
+            // the known finding "the first in directory order wins"
             let kind = rng.below(2) as u8;
             if rng.chance(2, 3) {
                 run_project_spec(cx, &p, "project-dup-wanted-first", Some((kind, false)), rng)
+            } else if kind == 0 {
+                run_project_spec(cx, &p, "project-dup-storage-first", Some((kind, true)), rng)
             } else {
                 run_project_spec(cx, &p, "project-dup-decoy-first", Some((kind, true)), rng)
             }
@@ -1336,6 +1341,7 @@ fn run_project_spec(cx: &mut Ctx, p: &ProjSpec, label: &str, dup: Option<(u8, bo
     rng.shuffle(&mut streams[..]);
     let mut opts = CfbOpts::random(rng);
     let mut storage_patch: Option<(String, usize)> = None;
+    let mut storage_decoy_at: Option<usize> = None; // a storage entry is not a stream: invisible to the lookup
     if let Some((kind, decoy_first)) = dup {
         let m = &p.mods[0];
         let wanted = streams.iter().position(|(n, _)| *n == m.stream.1).unwrap();
@@ -1347,7 +1353,11 @@ fn run_project_spec(cx: &mut Ctx, p: &ProjSpec, label: &str, dup: Option<(u8, bo
             d.extend_from_slice(&c);
             d
         };
-        streams.insert(if decoy_first { wanted } else { wanted + 1 }, (m.stream.1.clone(), decoy));
+        let at = if decoy_first { wanted } else { wanted + 1 };
+        streams.insert(at, (m.stream.1.clone(), decoy));
+        if kind == 0 {
+            storage_decoy_at = Some(at);
+        }
         opts.dir_shuffle = false; // the directory order is the order of `streams`
         if kind == 0 {
             storage_patch = Some((m.stream.1.clone(), if decoy_first { 0 } else { 1 }));
@@ -1356,7 +1366,10 @@ fn run_project_spec(cx: &mut Ctx, p: &ProjSpec, label: &str, dup: Option<(u8, bo
     }
     // the model's view of the compound file: (encoded stream name, content) in directory order
     let mut model_streams = vec![];
-    for (n, d) in &streams {
+    for (k, (n, d)) in streams.iter().enumerate() {
+        if Some(k) == storage_decoy_at {
+            continue;
+        }
         if let Some(m) = p.mods.iter().find(|m| m.stream.1 == *n) {
             model_streams.push(format!("{}={}", hex(&m.stream.0), hex(d)));
         }
@@ -1436,7 +1449,7 @@ fn run_project_spec(cx: &mut Ctx, p: &ProjSpec, label: &str, dup: Option<(u8, bo
     }
     // the same project embedded in a workbook and read through `Reader::vba_project`
     let kind = *rng.pick(&["xlsm", "xlsb", "xls"]);
-    let seen = through_reader(kind, &file, &streams, p.cp, cx.rep, rng);
+    let seen = through_reader(kind, &file, &streams, storage_patch.as_ref(), p.cp, cx.rep, rng);
     cx.rep.count(&format!("project:through-reader:{kind}"));
     if seen != expect_proj {
         cx.rep.fail("impl_vs_spec", &format!("{label}-through-{kind}"), &input, &seen, &model, &expect_proj);
@@ -1538,7 +1551,7 @@ fn zip_with_project(path: &str, bin: &[u8], rng: &mut Rng) -> Vec<u8> {
 }
 
 /// the project as `Reader::vba_project` of the given workbook kind shows it
-fn through_reader(kind: &str, bin: &[u8], streams: &[(String, Vec<u8>)], project_cp: u16, rep: &mut Report, rng: &mut Rng) -> String {
+fn through_reader(kind: &str, bin: &[u8], streams: &[(String, Vec<u8>)], storage_patch: Option<&(String, usize)>, project_cp: u16, rep: &mut Report, rng: &mut Rng) -> String {
     use calamine::{Reader, Xls, XlsOptions, Xlsb, Xlsx};
     fn show<E: std::fmt::Debug>(r: Option<Result<std::borrow::Cow<'_, VbaProject>, E>>) -> String {
         match r {
@@ -1567,6 +1580,12 @@ fn through_reader(kind: &str, bin: &[u8], streams: &[(String, Vec<u8>)], project
             all.push(("Workbook".into(), xls_workbook_stream().clone()));
             all.push(("_VBA_PROJECT_CUR".into(), vec![]));
             let mut file = write_cfb(&all, &CfbOpts::default(), rng);
+            // the rebuilt container keeps the entry type of a storage decoy (directory order = order of `all`)
+            if let Some((n, nth)) = storage_patch {
+                if !verif_harness::cfbpatch::set_entry_type(&mut file, n, *nth, 1) {
+                    rep.fail("model_vs_spec", "harness:storage-entry-not-found", n, "", "", "");
+                }
+            }
             if rng.chance(1, 2) {
                 verif_harness::cfbpatch::garbage_ignored_fields(&mut file, rng);
             }
